@@ -96,6 +96,27 @@ CHECKS = {
             'Unicode through the wrapper\'s literal expression vs Xml/Escape.v and the verified decoder; with/without XML.',
             'ElementTree / str.strip are modelled (ASCII whitespace); the C++ lexer\'s escape decoding is formalised, g++ not run in quick.',
             'Coq proof (escape round trip, selection invariant, non-interference) + correspondence', '6 C17'),
+    'C18': ('proof', 'Theorems (Props/C18.v) over a Z-arithmetic model of matlab.h (Runtime/Mx.v): wrap then unwrap is the '
+            'identity for every bool, char, unsigned char, int, size_t (all 64 bits), every double bit pattern, every NUL-free '
+            'string (full statement refuted: embedded NUL), every vector length and matrix shape with element positions '
+            '(column-major index lemma), ill-typed arrays are errors; handles: a received proxy designates the same object at '
+            'every inheritance level and an object is alive iff some proxy holds a cell for it (Runtime/Gateway.v invariant). '
+            'Tie: a C++ driver compiled against the REAL matlab.h and a mock MEX API compares array class, shape, cells and the '
+            'unwrapped value with the model; generated gateways (as generated and with isVirtual switched on) driven through '
+            'random wrap/unwrap/release histories compare collector sizes, live objects and double frees per step.',
+            'partial: the C++ compiler, libstdc++ shared_ptr and the mock MEX API are trusted; float formatting is never compared.',
+            'Coq proof (mod-arithmetic round trips, ownership invariant) + compiled-C++ correspondence', '6 C18'),
+    'C11': ('proof', 'Theorems (Props/C11.v): for every class forest and every history of Construct / Receive / Make / Delete / '
+            'Unload in which the session deletes only proxies it holds, the ownership invariant holds in every reachable state '
+            '(distinct cells, each in its collector, each held by exactly one proxy, nothing freed twice), deletion touches no '
+            'other proxy, unloading releases everything; call id -> routine of the same member is the C05 dispatch-table theorem. '
+            'Full statement refuted (delete after clear mex: double free) - recorded finding. Tie: generated gateways compiled '
+            'with the real matlab.h against a mock MEX API, an instrumented library and an allocator that never reuses memory, '
+            'driven by a MATLAB-session simulator with ids/arity/property names read from the generated .m files; per step: '
+            'collector sizes, live objects per class, double-free flag vs the model, call trace and result vs the declared entity.',
+            'partial: that a reached routine passes the supplied values and returns the result is observed (trace), not proved; '
+            'the MATLAB side (classdef constructor protocol, delete order) is simulated from the generated .m text.',
+            'Coq proof (ownership invariant over histories) + compiled-gateway correspondence', '6 C11'),
     'C13': ('proof', 'Theorems (Props/C13.v): an instantiation is a function of its own argument tuple only (lists are '
             'never read), pointwise image of the product; alpha-invariance on the C02 domain via the substitution spec; '
             'refuted in general by the substring rewrite (recorded). Tie: metamorphic experiments on the implementation '
